@@ -3,6 +3,10 @@ CONSTANTS
   LegacyBreak = FALSE
   SwapIn = "A"
   NoShadow = FALSE
+  ShallowSub = FALSE
+  IgnoreNs = FALSE
+  ModSharedPath = FALSE
+  MaxMod = 0
   NodeU <- NodeU4
   MaxAssoc = 2
   CreateNs = {1}
